@@ -36,6 +36,29 @@ pub fn exec(c: &[i64]) -> Vec<i64> {
             let id = Id::new(c[3 + 8 * n] as u32);
             vec![f.matches(&id) as i64]
         }
+        4 => {
+            // the filter installed the way a user installs it - ControlNetwork::bind(..).with_filter(f) - and asked
+            // through recv: a frame that passes is delivered, one that does not is never seen
+            let accept = c[1] != 0; let n = c[2] as usize;
+            let mut f = if accept { Filter::accept() } else { Filter::reject() };
+            for k in 0..n {
+                let b = 3 + 8 * k;
+                let o = |p: i64, v: i64| if p == 0 { None } else { Some(v) };
+                f.push(FilterItem {
+                    priority: o(c[b], c[b + 1]).map(|v| v as u8), pgn: o(c[b + 2], c[b + 3]).map(|v| v as u32),
+                    source_address: o(c[b + 4], c[b + 5]).map(|v| v as u8), destination_address: o(c[b + 6], c[b + 7]).map(|v| v as u8) });
+            }
+            let id = c[3 + 8 * n] as u32;
+            static NEXT: std::sync::atomic::AtomicU64 = std::sync::atomic::AtomicU64::new(0);
+            let rt = tokio::runtime::Builder::new_current_thread().enable_all().build().unwrap();
+            let iface = format!("c17f{}t{:?}", NEXT.fetch_add(1, std::sync::atomic::Ordering::SeqCst), std::thread::current().id()).replace(['(', ')', 'T', 'h', 'r', 'e', 'a', 'd', 'I'], "");
+            let bus = Bus::new(&iface);
+            let mut net = { let _g = rt.enter(); ControlNetwork::bind(&iface, &j_name()).unwrap().with_filter(f) };
+            bus.inject(&raw_frame(id | 0x8000_0000, 8, &[1, 2, 3, 4, 5, 6, 7, 8]));
+            let got = rt.block_on(async { matches!(tokio::time::timeout(std::time::Duration::from_millis(40), net.recv()).await, Ok(Ok(()))) });
+            let right = got && net.frame().map(|fr| fr.id().as_raw() == id).unwrap_or(false);
+            vec![if got { right as i64 } else { 0 }]
+        }
         2 => with_rig(|r| {
             let data: Vec<u8> = c[3..].iter().map(|x| *x as u8).collect();
             let frame = crate::wire::mk_frame(c[1] as u32, &data);
@@ -96,6 +119,17 @@ pub fn gen(o: &Opts, sink: &mut dyn FnMut(Vec<i64>, String)) {
                 let it = item_for(*id, mask, hit, &mut rng);
                 put!({ let mut c = vec![1, acc, 1]; c.extend(&it); c.push(*id as i64); c });
             } }
+        }
+        // the same lists installed with ControlNetwork::with_filter and asked through recv (kind 4)
+        let n4 = if o.tier_thorough { 3_000 } else { 240 };
+        for j in 0..n4 {
+            let id = *rng.pick(&ids);
+            let n = if j % 8 == 0 { 0 } else { 1 + rng.below(3) as i64 };
+            let mut c = vec![4, acc, n];
+            for _ in 0..n { let mask = rng.below(16) as u32; let hit = if rng.chance(2, 3) { mask } else { (rng.below(16) as u32) & mask };
+                c.extend(item_for(id, mask, hit, &mut rng)); }
+            c.push(id as i64);
+            put!(c);
         }
         let n2 = if o.tier_thorough { 400_000 } else { 30_000 };
         for _ in 0..n2 {
